@@ -15,6 +15,7 @@ func init() { register("C12", checkC12) }
 func checkC12(c *Ctx, r *Report) {
 	r.Explanation = "R6 FIXPOINT: CalculateCanTerminate is the least fixpoint 'a left-hand side is productive iff every right-hand symbol is' (terminals start productive, nonterminals unproductive), and returns every nonterminal still unproductive; who-writes CanTerminate: NewSymbol (true), SetNT (false) and the two fixpoints (true), nobody else. R2 ORDER: every right-hand symbol lookup in RuleVistor.Process is nil-tested with a diagnostic panic before use; in BuildLALR1 the rule-less-nonterminal test and the productivity test dominate the automaton construction; ParseAndBuild returns Parse's error. Not decided: that exactly the usable grammars are accepted (the converse direction quantifies over all grammars); the 2000-state limit is read and reported."
 	// C12.a
+	c12Flows(c, r)
 	if f := c.need(r, "C12.a", "Grammar", "Grammar", "CalculateCanTerminate"); f != nil {
 		why := checkFixpoint(c, f, fixpointSpec{mark: "CanTerminate", predAll: []string{"CanTerminate"}})
 		r.Check(why == "", "C12.a", "R6 FIXPOINT", f.Name+"/productive-fixpoint", c.pos(f.Decl.Pos()),
